@@ -20,7 +20,7 @@ Ltac wake_closed C' :=
 Definition rel_effect (s s' : state) (w : tid) : Prop :=
   pcof s' w = pcof s w
   \/ (exists k f, pcof s w = PW2wait k f /\ pcof s' w = PW3 k f)
-  \/ (exists a k, pcof s w = PC2wait a k /\ pcof s' w = PIdle /\ shut s' = true).
+  \/ (exists a k, pcof s w = PC2wait a k /\ pcof s' w = PIdle /\ shutd s' = true).
 
 Definition other_effect (s s' : state) (w : tid) : Prop :=
   rel_effect s s' w
@@ -41,25 +41,28 @@ Proof.
       * right; left. exists k, f. split; [unfold pcof; exact Epc|].
         unfold pcof. cbn. rewrite upd_same. reflexivity.
       * left. unfold pcof. cbn. rewrite upd_other by exact Hne. reflexivity.
-    + set (s1 := finish_close (set_shut s) x a k).
+    + set (s1 := finish_close (shutdown_tr s) x a k).
       assert (leaving s1 t ws) as L1.
       { unfold leaving. split; [exact Hnd' | split; [intros H1; apply Hnin; right; exact H1 | split]].
         - intros t' Hne. split.
           + intros H1. destruct (Nat.eq_dec t' x) as [->|Hne2].
             * unfold s1 in H1. rewrite pcof_finish_close_same in H1. discriminate.
             * unfold s1 in H1. rewrite pcof_finish_close_other in H1 by exact Hne2.
-              change (pcof (set_shut s) t') with (pcof s t') in H1.
+              rewrite pcof_shutdown_tr in H1.
               apply Hwt in H1; [|exact Hne]. destruct H1 as [->|H1]; [contradiction | exact H1].
           + intros H1. destruct (Nat.eq_dec t' x) as [->|Hne2]; [contradiction|].
             unfold s1. rewrite pcof_finish_close_other by exact Hne2.
-            change (pcof (set_shut s) t') with (pcof s t'). apply Hwt; [exact Hne | right; exact H1].
+            rewrite pcof_shutdown_tr. apply Hwt; [exact Hne | right; exact H1].
         - intros t' Hne. destruct (Nat.eq_dec t' x) as [->|Hne2].
           + unfold s1. rewrite pcof_finish_close_same. reflexivity.
           + unfold s1. rewrite pcof_finish_close_other by exact Hne2.
-            change (pcof (set_shut s) t') with (pcof s t'). apply Hh. exact Hne. }
-      assert (shut (release_ws ws s1) = true) as Hsh.
-      { destruct (release_ws_data ws s1) as (_ & _ & _ & _ & _ & M). apply M.
-        unfold s1. destruct (data_finish_close (set_shut s) x a k) as (_ & _ & _ & _ & _ & F). rewrite F. reflexivity. }
+            rewrite pcof_shutdown_tr. apply Hh. exact Hne. }
+      assert (shutd (release_ws ws s1) = true) as Hsh.
+      { pose proof (shutd_shutdown_tr s) as S0. unfold shutd in *. apply orb_true_iff in S0. apply orb_true_iff.
+        destruct S0 as [S0|S0].
+        - left. destruct (release_ws_data ws s1) as (_ & _ & _ & _ & _ & M). apply M.
+          unfold s1. destruct (data_finish_close (shutdown_tr s) x a k) as (_ & _ & _ & _ & _ & F). rewrite F. exact S0.
+        - right. rewrite stalled_release_ws. unfold s1. rewrite stalled_finish_close. exact S0. }
       destruct (Nat.eq_dec w x) as [->|Hne].
       * right; right. exists a, k. split; [unfold pcof; exact Epc | split; [|exact Hsh]].
         destruct (IH s1 t L1 x Hxt) as [H|[(k' & f' & A & _)|(a' & k' & A & _)]].
@@ -67,7 +70,7 @@ Proof.
         -- unfold s1 in A. rewrite pcof_finish_close_same in A. discriminate.
         -- unfold s1 in A. rewrite pcof_finish_close_same in A. discriminate.
       * assert (pcof s1 w = pcof s w) as E1.
-        { unfold s1. rewrite pcof_finish_close_other by exact Hne. reflexivity. }
+        { unfold s1. rewrite pcof_finish_close_other by exact Hne. apply pcof_shutdown_tr. }
         destruct (IH s1 t L1 w Hw) as [H|[(k' & f' & A & B)|(a' & k' & A & B & C)]].
         -- left. congruence.
         -- right; left. exists k', f'. split; congruence.
@@ -94,7 +97,7 @@ Proof.
 Qed.
 
 Lemma oe_then_pcu s s1 s2 t p w :
-  other_effect s s1 w -> pc_update s1 s2 t p -> w <> t -> shut s2 = shut s1 -> other_effect s s2 w.
+  other_effect s s1 w -> pc_update s1 s2 t p -> w <> t -> shutd s2 = shutd s1 -> other_effect s s2 w.
 Proof.
   intros O (_ & _ & _ & E) Hne Sh. specialize (E w Hne).
   destruct O as [[H|[(k & f & A & B)|(a & k & A & B & C)]]|[(A & B & [C|C])|(A & B)]].
@@ -198,6 +201,8 @@ Proof.
         [eapply quiet_trans; [exact Q0 | qrl] | apply pcu_finish | exact Hw].
     + inversion H; subst. eapply oe_qp with (s1 := set_failing s0);
         [eapply quiet_trans; [exact Q0 | qrl] | apply pcu_finish | exact Hw].
+    + inversion H; subst. eapply oe_qp with (s1 := set_stalled s0);
+        [eapply quiet_trans; [exact Q0 | qrl] | apply pcu_finish | exact Hw].
     + destruct (Nat.eqb t rtid); inversion H; subst.
       * eapply oe_qp; [exact Q0 | apply pcu_finish | exact Hw].
       * eapply oe_after_quiet; [exact Q0|].
@@ -233,6 +238,7 @@ Proof.
   - discriminate.
   - inversion H; subst. apply oe_same. unfold pcof. cbn. rewrite upd_other by exact Hw. reflexivity.
   - assert (wr s = Some t) as Ewr by (apply (inv_holder s HI); unfold pcof; rewrite Epc; reflexivity).
+    destruct (stalled s && negb (shut s)); [discriminate|].
     destruct (failing s || shut s); inversion H; subst.
     + set (s1 := set_wire s (pkt s + 1)%N (wire s)).
       assert (Inv s1) as HI1 by (eapply inv_quiet; [exact HI | qrl]).
@@ -249,7 +255,7 @@ Proof.
     unfold pcof. cbn. rewrite upd_other by exact Hw. apply drain_pc.
   - destruct (wr s); inversion H; subst.
     + apply oe_same. unfold pcof. cbn. rewrite upd_other by exact Hw. reflexivity.
-    + eapply oe_qp with (s1 := set_shut s); [qrl | apply pcu_finish_close | exact Hw].
+    + eapply oe_qp with (s1 := shutdown_tr s); [apply quiet_shutdown_tr | apply pcu_finish_close | exact Hw].
   - discriminate.
   - inversion H; subst.
     eapply oe_qp with (s1 := set_rtable s (next_sid s + 1)%N (rtable s ++ [(next_sid s, t)])); [qrl | apply pcu_set_task | exact Hw].
@@ -267,11 +273,20 @@ Definition awaits_peer (s : state) (t : tid) : Prop :=
     (t_prog (tasks s t) = CAwait :: rest /\ t_sid (tasks s t) <> None /\ t_verdict (tasks s t) = None)
     \/ (t_prog (tasks s t) = CRead :: rest /\ t_sid (tasks s t) <> None /\ t_rq (tasks s t) = O /\ t_rclosed (tasks s t) = false).
 
-Lemma holder_enabled s h : Inv s -> wr s = Some h -> step s h <> None.
+(* blocked inside `writer.write_all(..)` on a transport whose peer has stopped reading (known finding F4): the
+   only way a task of the model is ever blocked while it holds the writer mutex *)
+Definition in_transport (s : state) (t : tid) : Prop :=
+  stalled s = true /\ shut s = false /\ exists k held, pcof s t = PW4 k held.
+
+Lemma holder_enabled s h : Inv s -> wr s = Some h -> step s h <> None \/ in_transport s h.
 Proof.
-  intros HI E. apply (inv_holder s HI) in E. unfold step. unfold pcof in E.
-  destruct (t_pc (tasks s h)); try discriminate.
-  destruct (failing s || shut s); discriminate.
+  intros HI E. apply (inv_holder s HI) in E. unfold step, in_transport. unfold pcof in *.
+  destruct (t_pc (tasks s h)) eqn:Epc; try discriminate.
+  - left. discriminate.
+  - destruct (stalled s) eqn:St; [destruct (shut s) eqn:Sh|]; cbn [andb negb].
+    + left. destruct (failing s || true); discriminate.
+    + right. repeat split. eauto.
+    + left. destruct (failing s || shut s); discriminate.
 Qed.
 
 Ltac en_tac Epc := right; right; left; unfold step; rewrite Epc.
@@ -283,7 +298,8 @@ Definition awaits_app (s : state) (t : tid) : Prop := pcof s t = PPwait.
 Theorem no_deadlock s t :
   Inv s ->
   finished s t \/ (awaits_peer s t \/ awaits_app s t) \/ step s t <> None \/
-  (waits_pc (pcof s t) = true /\ exists h, wr s = Some h /\ step s h <> None).
+  (waits_pc (pcof s t) = true /\ exists h, wr s = Some h /\ (step s h <> None \/ in_transport s h)) \/
+  in_transport s t.
 Proof.
   intros HI. destruct (t_pc (tasks s t)) eqn:Epc.
   - destruct (t_prog (tasks s t)) as [|c rest] eqn:Eprog.
@@ -307,6 +323,7 @@ Proof.
       * en_tac Epc. rewrite Eprog. discriminate.
       * en_tac Epc. rewrite Eprog. discriminate.
       * en_tac Epc. rewrite Eprog. discriminate.
+      * en_tac Epc. rewrite Eprog. discriminate.
       * en_tac Epc. rewrite Eprog. unfold start_call. destruct (Nat.eqb t rtid); discriminate.
       * en_tac Epc. rewrite Eprog. unfold start_call. cbn [t_sid t_sclosed with_prog].
         destruct (t_sid (tasks s t)); [destruct (t_sclosed (tasks s t) || pump_done s)|]; discriminate.
@@ -316,18 +333,21 @@ Proof.
   - en_tac Epc. destruct (closed s); [|destruct (buffering s)]; discriminate.
   - en_tac Epc. discriminate.
   - en_tac Epc. destruct (wr s); discriminate.
-  - right; right; right. split; [unfold pcof; rewrite Epc; reflexivity|].
+  - right; right; right; left. split; [unfold pcof; rewrite Epc; reflexivity|].
     destruct (wr s) as [h|] eqn:Ewr.
     + exists h. split; [reflexivity | apply holder_enabled; assumption].
     + exfalso. pose proof (inv_free s HI Ewr) as Hn.
       assert (In t (waiters s)) as Hi by (apply (inv_wait s HI); unfold pcof; rewrite Epc; reflexivity).
       rewrite Hn in Hi. exact Hi.
   - en_tac Epc. discriminate.
-  - en_tac Epc. destruct (failing s || shut s); discriminate.
+  - destruct (stalled s) eqn:St; [destruct (shut s) eqn:Sh|].
+    + en_tac Epc. rewrite St, Sh. cbn [andb negb]. destruct (failing s || true); discriminate.
+    + right; right; right; right. unfold in_transport, pcof. rewrite Epc. repeat split; eauto.
+    + en_tac Epc. rewrite St. cbn [andb]. destruct (failing s || shut s); discriminate.
   - en_tac Epc. discriminate.
   - en_tac Epc. discriminate.
   - en_tac Epc. destruct (wr s); discriminate.
-  - right; right; right. split; [unfold pcof; rewrite Epc; reflexivity|].
+  - right; right; right; left. split; [unfold pcof; rewrite Epc; reflexivity|].
     destruct (wr s) as [h|] eqn:Ewr.
     + exists h. split; [reflexivity | apply holder_enabled; assumption].
     + exfalso. pose proof (inv_free s HI Ewr) as Hn.
@@ -413,7 +433,7 @@ Theorem write_on_shut_fails s t k held :
   shut s = true -> pcof s t = PW4 k held ->
   exists s', step s t = Some s' /\ wire s' = wire s /\ pcof s' t = PE0 AfterIoErr k.
 Proof.
-  intros C Epc. unfold step. unfold pcof in Epc. rewrite Epc, C, orb_true_r.
+  intros C Epc. unfold step. unfold pcof in Epc. rewrite Epc, C, orb_true_r. cbn [negb]. rewrite andb_false_r.
   eexists. split; [reflexivity|]. split.
   - cbn [wire set_pc set_task set_tasks].
     destruct (release_ws_data (waiters (set_wire s (pkt s + 1)%N (wire s))) (set_wire s (pkt s + 1)%N (wire s))) as (A & _).
@@ -437,8 +457,8 @@ Lemma release_ws_closed ws : forall s, closed (release_ws ws s) = closed s /\ ta
 Proof.
   induction ws as [|w ws IH]; intros s; cbn [release_ws]; [split; reflexivity|].
   destruct (t_pc (tasks s w)); try (split; reflexivity).
-  destruct (IH (finish_close (set_shut s) w a k)) as [A B].
-  rewrite A, B, closed_finish_close, table_finish_close. split; reflexivity.
+  destruct (IH (finish_close (shutdown_tr s) w a k)) as [A B].
+  rewrite A, B, closed_finish_close, table_finish_close. shtr. split; reflexivity.
 Qed.
 
 Lemma closed_feed s ev :
@@ -482,7 +502,8 @@ Proof.
   - destruct (wr s); inversion H; subst; cbn in C'; congruence.
   - discriminate.
   - inversion H; subst. cbn in C'. congruence.
-  - destruct (failing s || shut s); inversion H; subst.
+  - destruct (stalled s && negb (shut s)); [discriminate|].
+    destruct (failing s || shut s); inversion H; subst.
     + set (s1 := set_wire s (pkt s + 1)%N (wire s)) in *.
       change (closed (release s1) = true) in C'. unfold release in C'.
       destruct (release_ws_closed (waiters s1) s1) as [A _]. rewrite A in C'. cbn in C'. congruence.
@@ -492,7 +513,7 @@ Proof.
   - inversion H; subst. left. unfold enter_close. rewrite C. unfold pcof. cbn. rewrite upd_same. reflexivity.
   - cbv zeta in H. inversion H; subst. cbn in C'. wake_closed C'. congruence.
   - destruct (wr s); inversion H; subst; [cbn in C'; congruence|].
-    rewrite closed_finish_close in C'. cbn in C'. congruence.
+    rewrite closed_finish_close in C'. shtr_in C'. congruence.
   - discriminate.
   - inversion H; subst. cbn in C'. congruence.
   - inversion H; subst. cbn in C'. congruence.
@@ -501,24 +522,25 @@ Proof.
 Qed.
 
 Lemma step_self_in_close s t s' :
-  step s t = Some s' -> in_close (pcof s t) = true -> in_close (pcof s' t) = true \/ shut s' = true.
+  step s t = Some s' -> in_close (pcof s t) = true -> in_close (pcof s' t) = true \/ shutd s' = true.
 Proof.
   intros H I. unfold step in H. unfold pcof in I.
   destruct (t_pc (tasks s t)) eqn:Epc; try discriminate.
   - inversion H; subst. left. unfold pcof. cbn. rewrite upd_same. reflexivity.
   - destruct (wr s); inversion H; subst.
     + left. unfold pcof. cbn. rewrite upd_same. reflexivity.
-    + right. destruct (data_finish_close (set_shut s) t a k) as (_ & _ & _ & _ & _ & F). rewrite F. reflexivity.
+    + right. pose proof (shutd_shutdown_tr s) as S0. unfold shutd in *.
+      destruct (data_finish_close (shutdown_tr s) t a k) as (_ & _ & _ & _ & _ & F). rewrite F, stalled_finish_close. exact S0.
 Qed.
 
 Definition shut_ok (s : state) : Prop :=
-  closed s = true -> shut s = true \/ exists x, in_close (pcof s x) = true.
+  closed s = true -> shutd s = true \/ exists x, in_close (pcof s x) = true.
 
 Theorem step_shut_ok s t s' : Inv s -> shut_ok s -> step s t = Some s' -> shut_ok s'.
 Proof.
   intros HI S H C'. destruct (closed s) eqn:C.
   - destruct (S C) as [Sh|[x Hx]].
-    + left. apply (proj2 (step_mono s t s' H)). exact Sh.
+    + left. eapply step_shutd; eauto.
     + destruct (Nat.eq_dec x t) as [->|Hne].
       * destruct (step_self_in_close s t s' H Hx) as [A|A]; [right; exists t; exact A | left; exact A].
       * destruct (step_others s t s' HI H x Hne) as [[E|[(k & f & A & _)|(a & k & A & B & Sh)]]|[(_ & A & _)|(A & _)]].
@@ -546,7 +568,7 @@ Proof. unfold enter_close. destruct (closed s); [apply rtable_finish_close | ref
 Lemma rtable_release_ws ws : forall s, rtable (release_ws ws s) = rtable s.
 Proof.
   induction ws as [|w ws IH]; intros s; cbn [release_ws]; [reflexivity|].
-  destruct (t_pc (tasks s w)); try reflexivity. rewrite IH. apply (rtable_finish_close (set_shut s)).
+  destruct (t_pc (tasks s w)); try reflexivity. rewrite IH, rtable_finish_close. apply rtable_shutdown_tr.
 Qed.
 Lemma rtable_push s t f : rtable (push_item s t f) = rtable s.
 Proof.
@@ -650,6 +672,7 @@ Proof.
   - assert ((forall x, pcof s t <> PO0b x) /\ is_pc1 (pcof s t) = false) as NP by (split; [intros x; unfold pcof; rewrite Epc; discriminate | unfold pcof; rewrite Epc; reflexivity]).
     inversion H; subst. apply TE_same; [reflexivity | reflexivity | exact NP].
   - assert ((forall x, pcof s t <> PO0b x) /\ is_pc1 (pcof s t) = false) as NP by (split; [intros x; unfold pcof; rewrite Epc; discriminate | unfold pcof; rewrite Epc; reflexivity]).
+    destruct (stalled s && negb (shut s)); [discriminate|].
     destruct (failing s || shut s); inversion H; subst; apply TE_same; try exact NP.
     + set (s1 := set_wire s (pkt s + 1)%N (wire s)) in *.
       change (table (release s1) = table s). unfold release. destruct (release_ws_closed (waiters s1) s1) as [_ B]. rewrite B. reflexivity.
@@ -665,7 +688,7 @@ Proof.
     cbn [rtable set_pc set_task set_tasks drain_state set_rtable]. rewrite rtable_wake, (proj1 (proj2 (proj2 (proj2 (flags_wake s))))). reflexivity.
   - assert ((forall x, pcof s t <> PO0b x) /\ is_pc1 (pcof s t) = false) as NP by (split; [intros x; unfold pcof; rewrite Epc; discriminate | unfold pcof; rewrite Epc; reflexivity]).
     destruct (wr s); inversion H; subst; apply TE_same; try exact NP; try reflexivity;
-      [rewrite table_finish_close | rewrite rtable_finish_close]; reflexivity.
+      [rewrite table_finish_close | rewrite rtable_finish_close]; shtr; reflexivity.
   - discriminate.
   - inversion H; subst. apply TE_first; [unfold pcof; exact Epc | reflexivity | reflexivity].
   - inversion H; subst. apply (TE_second s _ t sid); [unfold pcof; exact Epc | reflexivity | reflexivity].
@@ -738,7 +761,8 @@ Proof.
   - destruct (wr s); inversion H; subst; cbn in C'; congruence.
   - discriminate.
   - inversion H; subst. cbn in C'. congruence.
-  - destruct (failing s || shut s); inversion H; subst.
+  - destruct (stalled s && negb (shut s)); [discriminate|].
+    destruct (failing s || shut s); inversion H; subst.
     + set (s1 := set_wire s (pkt s + 1)%N (wire s)) in *.
       change (closed (release s1) = true) in C'. unfold release in C'.
       destruct (release_ws_closed (waiters s1) s1) as [A _]. rewrite A in C'. cbn in C'. congruence.
@@ -748,7 +772,7 @@ Proof.
   - inversion H; subst. left. unfold enter_close. rewrite C. unfold pcof. cbn. rewrite upd_same. reflexivity.
   - cbv zeta in H. inversion H; subst. cbn in C'. wake_closed C'. congruence.
   - destruct (wr s); inversion H; subst; [cbn in C'; congruence|].
-    rewrite closed_finish_close in C'. cbn in C'. congruence.
+    rewrite closed_finish_close in C'. shtr_in C'. congruence.
   - discriminate.
   - inversion H; subst. cbn in C'. congruence.
   - inversion H; subst. cbn in C'. congruence.
@@ -778,7 +802,8 @@ Proof.
   - destruct (wr s); inversion H; subst; cbn in C'; congruence.
   - discriminate.
   - inversion H; subst. cbn in C'. congruence.
-  - destruct (failing s || shut s); inversion H; subst.
+  - destruct (stalled s && negb (shut s)); [discriminate|].
+    destruct (failing s || shut s); inversion H; subst.
     + set (s1 := set_wire s (pkt s + 1)%N (wire s)) in *.
       change (closed (release s1) = false) in C'. unfold release in C'.
       destruct (release_ws_closed (waiters s1) s1) as [A _]. rewrite A in C'. cbn in C'. congruence.
@@ -788,7 +813,7 @@ Proof.
   - inversion H; subst. unfold enter_close in C'. rewrite C, closed_finish_close in C'. congruence.
   - cbv zeta in H. inversion H; subst. cbn in C'. wake_closed C'. congruence.
   - destruct (wr s); inversion H; subst; [cbn in C'; congruence|].
-    rewrite closed_finish_close in C'. cbn in C'. congruence.
+    rewrite closed_finish_close in C'. shtr_in C'. congruence.
   - discriminate.
   - inversion H; subst. cbn in C'. congruence.
   - inversion H; subst. cbn in C'. congruence.
@@ -822,6 +847,8 @@ Proof.
   - destruct a; [| destruct k |]; cbn; rewrite ?upd_same; split; auto.
   - rewrite tasks_finish_close_other by exact H. apply ks_refl.
 Qed.
+Lemma ks_shutdown_close s w a k u : keeps_stream (tasks s u) (tasks (finish_close (shutdown_tr s) w a k) u).
+Proof. rewrite <- (tasks_shutdown_tr s). apply ks_finish_close. Qed.
 
 Lemma ks_finish_w s w k r u : keeps_stream (tasks s u) (tasks (finish_w s w k r) u).
 Proof.
@@ -845,7 +872,7 @@ Proof.
   induction ws as [|w ws IH]; intros s u; cbn [release_ws]; [apply ks_refl|].
   destruct (t_pc (tasks s w)); try apply ks_refl.
   - apply (ks_set_pc (set_lock s (Some w) ws) w (PW3 k f) u).
-  - eapply ks_trans; [|apply IH]. apply (ks_finish_close (set_shut s) w a k u).
+  - eapply ks_trans; [|apply IH]. apply (ks_shutdown_close s w a k u).
 Qed.
 
 Lemma ks_enter_close s w a k u : keeps_stream (tasks s u) (tasks (enter_close s w a k) u).
@@ -988,6 +1015,7 @@ Proof.
     + eapply reader_ok_keep; [exact R0 | reflexivity | intros u; apply (ks_finish (set_buffering s0 false))].
     + eapply reader_ok_keep; [exact R0 | reflexivity | intros u; apply (ks_finish (set_buffering s0 true))].
     + eapply reader_ok_keep; [exact R0 | reflexivity | intros u; apply (ks_finish (set_failing s0))].
+    + eapply reader_ok_keep; [exact R0 | reflexivity | intros u; apply (ks_finish (set_stalled s0))].
     + eapply reader_ok_keep; [apply reader_ok_feed; exact R0 | reflexivity | intros u; apply ks_finish].
     + (* CSend *)
       eapply reader_ok_keep; [exact R0 | apply (rtable_push s0) | intros u; eapply ks_trans; [apply ks_push | apply ks_finish]].
@@ -1005,7 +1033,8 @@ Proof.
       (eapply reader_ok_keep; [exact R | reflexivity | intros u; apply (ks_set_pc (set_lock s _ _))]).
   - discriminate.
   - inversion H; subst. eapply reader_ok_keep; [exact R | reflexivity | intros u; apply (ks_set_pc (set_queue s _ _))].
-  - destruct (failing s || shut s); inversion H; subst.
+  - destruct (stalled s && negb (shut s)); [discriminate|].
+    destruct (failing s || shut s); inversion H; subst.
     + set (s1 := set_wire s (pkt s + 1)%N (wire s)).
       eapply reader_ok_keep; [exact R | | intros u; eapply ks_trans; [apply (ks_release_ws (waiters s1) s1 u) | apply ks_set_pc]].
       cbn [rtable set_pc set_task set_tasks]. unfold release. apply (rtable_release_ws (waiters s1) s1).
@@ -1017,7 +1046,7 @@ Proof.
     eapply reader_ok_keep; [exact R | apply rtable_wake | intros u; apply ks_wake].
   - destruct (wr s); inversion H; subst.
     + eapply reader_ok_keep; [exact R | reflexivity | intros u; apply (ks_set_pc (set_lock s _ _))].
-    + eapply reader_ok_keep; [exact R | rewrite rtable_finish_close; reflexivity | intros u; apply (ks_finish_close (set_shut s))].
+    + eapply reader_ok_keep; [exact R | rewrite rtable_finish_close; apply rtable_shutdown_tr | intros u; apply (ks_shutdown_close s)].
   - discriminate.
   - (* PO0 allocates the id and registers the inbound queue *)
     inversion H; subst. clear H.
@@ -1071,6 +1100,7 @@ Proof.
     + apply (ks_finish (set_buffering s0 false)).
     + apply (ks_finish (set_buffering s0 true)).
     + apply (ks_finish (set_failing s0)).
+    + apply (ks_finish (set_stalled s0)).
     + eapply ks_trans; [apply ks_feed | apply ks_finish].
     + eapply ks_trans; [apply ks_push | apply ks_finish].
     + match goal with |- keeps_stream _ (tasks (set_pump_done (finish ?X t ResClosed)) u) => apply (ks_finish X t ResClosed u) end.
@@ -1081,7 +1111,8 @@ Proof.
   - destruct (wr s); inversion H; subst; apply (ks_set_pc (set_lock s _ _)).
   - discriminate.
   - inversion H; subst. apply (ks_set_pc (set_queue s _ _)).
-  - destruct (failing s || shut s); inversion H; subst.
+  - destruct (stalled s && negb (shut s)); [discriminate|].
+    destruct (failing s || shut s); inversion H; subst.
     + set (s1 := set_wire s (pkt s + 1)%N (wire s)).
       eapply ks_trans; [apply (ks_release_ws (waiters s1) s1 u) | apply ks_set_pc].
     + set (s1 := set_wire s (pkt s + 1)%N (wire s ++ [((pkt s + 1)%N, held)])).
@@ -1092,7 +1123,7 @@ Proof.
     eapply ks_trans; [|apply (ks_set_pc (drain_state s1) t (PC2 a k) u)].
     change (keeps_stream (tasks s1 u) (drain (table s1) (tasks s1) u)).
     destruct (drain_keeps (table s1) (tasks s1) u) as (A & _ & B & _). split; [left; exact B | exact A].
-  - destruct (wr s); inversion H; subst; [apply (ks_set_pc (set_lock s _ _)) | apply (ks_finish_close (set_shut s))].
+  - destruct (wr s); inversion H; subst; [apply (ks_set_pc (set_lock s _ _)) | apply (ks_shutdown_close s)].
   - discriminate.
   - inversion H; subst. destruct (Nat.eq_dec u t) as [->|Hne].
     + exfalso. apply NP; [reflexivity | unfold pcof; exact Epc].
@@ -1132,7 +1163,8 @@ Proof.
     rewrite E. reflexivity.
   - destruct (wr s); inversion H; subst; unfold pcof; cbn; rewrite upd_same; reflexivity.
   - inversion H; subst. unfold pcof; cbn; rewrite upd_same; reflexivity.
-  - destruct (failing s || shut s); inversion H; subst.
+  - destruct (stalled s && negb (shut s)); [discriminate|].
+    destruct (failing s || shut s); inversion H; subst.
     + unfold pcof; cbn; rewrite upd_same; reflexivity.
     + match goal with |- is_pre (pcof (finish_w ?a t k ResOk) t) = _ => destruct (pcu_finish_w a t k ResOk) as (_ & _ & E & _) end.
       rewrite E. reflexivity.
@@ -1317,7 +1349,7 @@ Definition quiescent_close (s : state) : Prop := forall x, in_close (pcof s x) =
 Theorem dead_session_released sched progs buf pend :
   let s := run (init progs buf pend) sched in
   closed s = true -> quiescent_close s ->
-  shut s = true /\
+  (shut s = true \/ stalled s = true) /\
   (forall sid u, In (sid, u) (table s) -> late_entry s sid u) /\
   (forall sid u, In (sid, u) (rtable s) -> late_entry_r s sid u).
 Proof.
@@ -1330,7 +1362,7 @@ Proof.
     - apply inv_init.
     - split; [apply inv_init | split; [apply shut_ok_init | split; [apply half_ok_init | apply drained_ok_init]]]. }
   split.
-  - destruct (S C) as [A|[x A]]; [exact A | rewrite Q in A; discriminate].
+  - destruct (S C) as [A|[x A]]; [unfold shutd in A; apply orb_true_iff in A; exact A | rewrite Q in A; discriminate].
   - destruct (D C) as [[x A]|A]; [|exact A]. specialize (Q x). destruct (pcof s x); discriminate.
 Qed.
 
